@@ -33,15 +33,18 @@ type C19 struct{}
 
 func (C19) ID() string { return "C19" }
 
-var c19Kinds = []string{"cmd", "upd", "drop", "stall", "logout", "idle", "rmuser", "close", "burst"}
+var c19Kinds = []string{"cmd", "upd", "drop", "stall", "logout", "idle", "rmuser", "close", "burst", "flood"}
 
 func (C19) Generate(r *core.Rand, tier string, idx int) *core.Scenario {
 	sc := &core.Scenario{Property: "C19", Cfg: map[string]int{}}
 	sc.Cfg["nsess"] = r.Range(2, 4)
 	sc.Cfg["users"] = r.Range(1, 2)
 	sc.Cfg["idlebulk"] = []int{0, 500}[r.Intn(2)]
-	//                 cmd upd drop stall logout idle rmuser close burst
-	weights := []int{30, 10, 4, 2, 3, 4, 1, 1, 14}
+	if r.P(1, 4) {
+		sc.Cfg["gated"] = 1
+	}
+	//                 cmd upd drop stall logout idle rmuser close burst flood
+	weights := []int{30, 10, 4, 2, 3, 4, 1, 1, 14, 2}
 	n := r.Range(20, 60)
 	for i := 0; i < n; i++ {
 		a := core.Action{K: c19Kinds[r.Weighted(weights)], S: r.Intn(sc.Cfg["nsess"])}
@@ -144,7 +147,9 @@ type c19Pending struct {
 
 func (C19) Execute(sc *core.Scenario, keepLog bool) *core.Result {
 	nusers := max(1, sc.C("users"))
-	cfg := world.Config{IdleBulk: time.Duration(sc.C("idlebulk")) * time.Millisecond}
+	// cfg gated: the sessions' update queues are held back at the simulator's gates (as in
+	// C01/C02) and opened only at teardown: sessions end with many undelivered updates
+	cfg := world.Config{IdleBulk: time.Duration(sc.C("idlebulk")) * time.Millisecond, Gate: sc.C("gated") == 1}
 	for i := 0; i < nusers; i++ {
 		cfg.Users = append(cfg.Users, world.UserCfg{Names: []string{fmt.Sprintf("user%d", i)}, Password: "pass"})
 	}
@@ -206,6 +211,7 @@ func (C19) Execute(sc *core.Scenario, keepLog bool) *core.Result {
 			what   string
 		}
 		var updWaits []updWait
+		var floods []chan struct{}
 		start := func(a core.Action) {
 			cs := ss[abs(a.S)%len(ss)]
 			s := cs.s
@@ -327,6 +333,60 @@ func (C19) Execute(sc *core.Scenario, keepLog bool) *core.Result {
 				}()
 				updWaits = append(updWaits, updWait{done: done, cancel: cancel, user: ui, what: fmt.Sprintf("%T", upd)})
 				e.Tr.Event("upd", ui, fmt.Sprintf("%T", upd))
+			case "flood":
+				// many updates in a row for one user: a session that does not take them (it
+				// idles on a stalled connection, or is busy) has more queued than its update
+				// channel buffers (32) when it ends
+				ui := abs(a.Arg(0)) % nusers
+				if removed[ui] || closed {
+					return
+				}
+				u := e.W.Users[ui]
+				ids := make([]string, 0)
+				for id := range u.Conn.Msgs {
+					ids = append(ids, string(id))
+				}
+				sort.Strings(ids)
+				if len(ids) == 0 {
+					return
+				}
+				id := imap.MessageID(ids[abs(a.Arg(1))%len(ids)])
+				n := 40 + abs(a.Arg(2))%40
+				if sc.C("gated") == 1 {
+					// every update is applied and queued for the sessions; none is delivered
+					for k := 0; k < n; k++ {
+						fl := imap.NewFlagSet(`\Seen`)
+						if k%2 == 1 {
+							fl = imap.NewFlagSet(`\Flagged`)
+						}
+						e.W.Submit(u, imap.NewMessageFlagsUpdated(id, fl))
+					}
+					e.St.Probes["update_floods_held_at_gates"]++
+					e.Tr.Event("flood", ui, n, "gated")
+					return
+				}
+				// submitted from a goroutine of its own, one after the other as fast as the
+				// server takes them: inside a burst the flood runs next to whatever else starts
+				floodDone := make(chan struct{})
+				go func() {
+					defer close(floodDone)
+					for k := 0; k < n; k++ {
+						fl := imap.NewFlagSet(`\Seen`)
+						if k%2 == 1 {
+							fl = imap.NewFlagSet(`\Flagged`)
+						}
+						upd := imap.NewMessageFlagsUpdated(id, fl)
+						for tries := 0; !u.Conn.Submit(upd); tries++ {
+							if tries > 200 {
+								return
+							}
+							time.Sleep(time.Millisecond)
+						}
+					}
+				}()
+				floods = append(floods, floodDone)
+				e.St.Probes["update_floods"]++
+				e.Tr.Event("flood", ui, n)
 			case "drop":
 				if s.C.Dead {
 					return
@@ -492,6 +552,20 @@ func (C19) Execute(sc *core.Scenario, keepLog bool) *core.Result {
 		}
 		e.Step = len(sc.Actions) + 1
 		// teardown: close everything, then no goroutine with a gluon frame may remain
+		if sc.C("gated") == 1 {
+			// the sessions end with their updates still queued; then the gates are opened for
+			// good, so that nothing is left parked by the simulator itself
+			for _, cs := range ss {
+				if !cs.s.C.Dead {
+					cs.s.C.Conn.ClientReset()
+					cs.s.C.Dead = true
+				}
+			}
+			e.W.Quiesce()
+			e.W.Sim.OpenGates(true)
+			e.W.ReleaseAll()
+			e.W.Quiesce()
+		}
 		for _, cs := range ss {
 			if !cs.s.C.Dead {
 				cs.s.C.Conn.ClientReset()
@@ -514,6 +588,13 @@ func (C19) Execute(sc *core.Scenario, keepLog bool) *core.Result {
 			u.Conn.Close(context.Background())
 		}
 		e.W.Quiesce()
+		for _, f := range floods {
+			select {
+			case <-f:
+			default:
+				e.St.Probes["flood_cut_short_by_teardown"]++
+			}
+		}
 		e.CheckPanics()
 		if rep := gluonRaces(raceReports()); rep != "" && e.V == nil {
 			e.FailSig("data-race", raceSig(rep), "the race detector reported:\n%s", rep)
